@@ -19,8 +19,11 @@ pub assume_specification<T, F>[ Option::<T>::get_or_insert_with ](a: &mut Option
         *final(a) == Some(*final(r));
 
 // rule R11: `vec![a]` / `vec![a, b]` become calls of these helpers (bodies verified, not trusted)
+pub open spec fn s1<T>(a: T) -> Seq<T> { Seq::<T>::empty().push(a) }
+pub open spec fn s2<T>(a: T, b: T) -> Seq<T> { Seq::<T>::empty().push(a).push(b) }
+
 pub fn vec1<T>(a: T) -> (v: Vec<T>)
-    ensures v@ =~= seq![a]
+    ensures v@ == s1(a), v@ =~= seq![a]
 {
     let mut v = Vec::new();
     v.push(a);
@@ -28,7 +31,7 @@ pub fn vec1<T>(a: T) -> (v: Vec<T>)
 }
 
 pub fn vec2<T>(a: T, b: T) -> (v: Vec<T>)
-    ensures v@ =~= seq![a, b]
+    ensures v@ == s2(a, b), v@ =~= seq![a, b]
 {
     let mut v = Vec::new();
     v.push(a);
